@@ -1185,3 +1185,34 @@ Theorem C05_src_k2_c_avx512_blake3_hash16_avx512_portable : forall inputs blocks
 Proof. exact k2_c_avx512_blake3_hash16_avx512_spec. Qed.
 Print Assumptions C05_src_k2_c_avx512_blake3_hash16_avx512_portable.
 (* END block of tools/gen_coq_kern2.py / Proofs/GenKern2P.v *)
+
+(* ---- the three C hashN functions whose per-block theorem needs 32-bit lanes (Proofs/GenKern2P2.v: loop invariant
+   "8 vectors of n lanes, every lane below 2^32"): translated whole function = the kernel model hash4_c / hash8_c ---- *)
+From V Require Import Proofs.GenKern2P2.
+Theorem C05_src_c_sse2_blake3_hash4_sse2 : forall inputs blocks key counter incr flags fs fe out,
+  length key = 8%nat -> Forall W key ->
+  (forall j, (j < 4)%nat -> length (inp inputs j) = (blocks * 64)%nat) ->
+  (forall j, (j < 4)%nat -> Forall (fun b => b < 256) (inp inputs j)) ->
+  counter + 4 <= 2 ^ 64 -> flags < 256 -> fs < 256 -> fe < 256 -> length out = 128%nat ->
+  Ok (k2_c_sse2_blake3_hash4_sse2 inputs blocks key counter incr flags fs fe out) =
+  (outs <- hash4_c inputs blocks key counter incr flags fs fe ;; Ok (concat outs)).
+Proof. exact k2_c_sse2_blake3_hash4_sse2_ok. Qed.
+Theorem C05_src_c_sse41_blake3_hash4_sse41 : forall inputs blocks key counter incr flags fs fe out,
+  length key = 8%nat -> Forall W key ->
+  (forall j, (j < 4)%nat -> length (inp inputs j) = (blocks * 64)%nat) ->
+  (forall j, (j < 4)%nat -> Forall (fun b => b < 256) (inp inputs j)) ->
+  counter + 4 <= 2 ^ 64 -> flags < 256 -> fs < 256 -> fe < 256 -> length out = 128%nat ->
+  Ok (k2_c_sse41_blake3_hash4_sse41 inputs blocks key counter incr flags fs fe out) =
+  (outs <- hash4_c inputs blocks key counter incr flags fs fe ;; Ok (concat outs)).
+Proof. exact k2_c_sse41_blake3_hash4_sse41_ok. Qed.
+Theorem C05_src_c_avx2_blake3_hash8_avx2 : forall inputs blocks key counter incr flags fs fe out,
+  length key = 8%nat -> Forall W key ->
+  (forall j, (j < 8)%nat -> length (inp inputs j) = (blocks * 64)%nat) ->
+  (forall j, (j < 8)%nat -> Forall (fun b => b < 256) (inp inputs j)) ->
+  counter + 8 <= 2 ^ 64 -> flags < 256 -> fs < 256 -> fe < 256 -> length out = 256%nat ->
+  Ok (k2_c_avx2_blake3_hash8_avx2 inputs blocks key counter incr flags fs fe out) =
+  (outs <- hash8_c inputs blocks key counter incr flags fs fe ;; Ok (concat outs)).
+Proof. exact k2_c_avx2_blake3_hash8_avx2_ok. Qed.
+Print Assumptions C05_src_c_sse2_blake3_hash4_sse2.
+Print Assumptions C05_src_c_sse41_blake3_hash4_sse41.
+Print Assumptions C05_src_c_avx2_blake3_hash8_avx2.
